@@ -121,6 +121,70 @@ def bases_events(rng, tier):
     # re-registration right after a failure, spelled out
     out.append(["reg_imm 0 3", "reg_imm 0 3", "reg_tm 1 0", "reg_tm 1 0", "reg_net 2 4 0", "reg_net 2 4 0",
                 "reg_net 3 4 1", "reg_net 3 4 1", "run", "run", "cancel_net 4 0", "cancel_net 4 1", "end"])
+    return out + bases_create(rng, tier)
+
+
+def create_line(r, ids, keys=None):
+    """`h_create <id>:<key>,...` (`-`: no element); keys from a small range, so equal keys are frequent"""
+    if not ids:
+        return "h_create -"
+    return "h_create " + ",".join("%d:%d" % (i, r.range(-5, 5) if keys is None else keys[j]) for j, i in enumerate(ids))
+
+
+def bases_create(rng, tier):
+    """ptrheap_create from an array of N >= 0 elements (own forks of the rng: the bases above are what they were).
+    The sweep then refuses every request the call makes (structure, list structure, list buffer) once and
+    persistently; what follows the call (h_add / h_min / h_delmin / h_free, a second h_create on the live heap, `end`)
+    exercises a heap that was created successfully, and shows what a failed call left behind."""
+    out = []
+    # every small N on its own, then sizes around powers of two, then one well past anything h_add reaches here
+    for n in (0, 1, 2, 3, 4, 7, 8, 9, 33, 600):
+        r = rng.fork("evcN%d" % n)
+        ids = list(range(n))
+        ops = [create_line(r, ids), "h_min", "h_add %d %d" % (n, r.range(-5, 5)), "h_min", "h_delmin", "h_delmin",
+               "h_add %d %d" % (n + 1, r.range(-5, 5)), "h_min"]
+        ops += ["h_delmin"] * min(n, 12)
+        if n % 2 == 0:
+            ops.append("h_free")
+        ops.append("end")
+        out.append(ops)
+    # all keys equal; keys descending (every element sifts); the call made again right after a failure; on a live heap
+    out.append([create_line(None, [5, 3, 9, 1], [2, 2, 2, 2]), "h_min", "h_delmin", "h_delmin", "h_min", "h_free", "end"])
+    out.append([create_line(None, list(range(10)), list(range(9, -1, -1))), "h_min"] + ["h_delmin"] * 10 + ["h_min", "end"])
+    out.append(["h_create 0:3,1:1,2:2", "h_create 0:3,1:1,2:2", "h_min", "h_create 4:0,2:7", "h_create -", "h_add 1 1",
+                "h_create 7:1", "h_delmin", "h_delmin", "end"])
+    out.append(["h_init", "h_add 0 1", "h_add 1 0", "h_create 2:5,3:4,0:6", "h_min", "h_add 1 9", "h_delmin", "h_free",
+                "h_create 1:1,2:1", "end"])
+    # an id the harness cannot name / the same pointer twice: not carried out
+    out.append(["h_create 0:1,4096:2", "h_create 1:1,2:0,1:3", "h_min", "h_create 1:1,2:0", "h_min", "h_free", "end"])
+    nb = 10 if tier == "quick" else 70
+    for bi in range(nb):
+        r = rng.fork("evc%d" % bi)
+        ops = []
+        nextid = 100
+        # something else allocated first now and then, so that the call's requests are not the first of the process
+        if r.chance(1, 3):
+            ops.append(r.choice(["reg_imm 90 3", "reg_tm 91 1000", "reg_net 92 5 0"]))
+        for _ in range(r.range(1, 3)):
+            n = r.choice([0, 1, 2, 2, 3, 4, 5, 7, 8, 9, 15, 16, 17, 40, r.below(64)])
+            start = r.below(50)
+            ids = [(start + 7 * j) % 97 for j in range(n)]          # distinct (97 is prime, n < 97), not in order
+            ops.append(create_line(r, ids))
+            for _ in range(r.range(1, 10)):
+                k = r.below(10)
+                if k < 4:
+                    ops.append("h_add %d %d" % (nextid, r.range(-5, 5)))
+                    nextid += 1
+                elif k < 7:
+                    ops.append("h_delmin")
+                elif k < 9:
+                    ops.append("h_min")
+                else:
+                    ops.append("h_free")
+        if r.chance(1, 3):
+            ops.append("run")
+        ops.append("end")
+        out.append(ops)
     return out
 
 
@@ -385,7 +449,8 @@ def make_components(ctx):
         monitor_args=["dsmon"], extra=NOBUILTIN, ldflags=[WRAP], bb_ok=True, bb_srcs=c12.BB_SRCS, bb_fresh=True, **common)
     ev = vlib.Component(
         "events", "h_allocfail.c", EV_SRCS, ["af"], None, nontrivial=lambda c: c[0].startswith("fail"),
-        rule="events: base sequences over ptrheap init/add/getmin/deletemin and events_immediate/timer/network register/cancel, "
+        rule="events: base sequences over ptrheap init/create (N = 0, 1, 2, ... 600 elements, equal keys)/add/getmin/deletemin/free "
+             "and events_immediate/timer/network register/cancel, "
              "clock steps and events_run (poll reports nothing ready, harness clock) x {no fault, failat k, failfrom k : every k}",
         monitor_args=["afmon"], extra=NOBUILTIN, ldflags=[WRAP + ",--wrap=poll"], bb_ok=True, bb_srcs=EV_BB_SRCS, bb_fresh=True, **common)
     up = vlib.Component(
